@@ -98,6 +98,7 @@ type concReq struct {
 	Op   *Op
 	Obs  []Obs
 	Done bool
+	Ctx  context.Context // nil = the round's context
 }
 
 // concRound issues the requests concurrently against one instance and returns the event log.
@@ -133,7 +134,11 @@ func concRound(ctx context.Context, fx *Fixture, inst *Instance, rl *recLocker, 
 			rl.gor.Store(goid(), i)
 			defer rl.gor.Delete(goid())
 			<-start
-			obs, err := inst.ExecCtx(context.WithValue(ctx, reqKeyT{}, i), r.Op)
+			base := ctx
+			if r.Ctx != nil {
+				base = r.Ctx
+			}
+			obs, err := inst.ExecCtx(context.WithValue(base, reqKeyT{}, i), r.Op)
 			if err == nil {
 				r.Obs = obs
 				r.Done = true
@@ -441,6 +446,55 @@ func cmdConc(prop string, args []string) int {
 		idx[fmt.Sprint(id)] = fmt.Sprintf("round %d: %s :: events %v", round, describeReqs(reqs), compactEvents(events))
 		if len(samples) < 2 {
 			samples = append(samples, idx[fmt.Sprint(id)])
+		}
+	}
+	// a caller that gives up while its request sits between the read and the write of a record: the
+	// request must either not write at all or keep excluding rivals until it has written
+	if prop == "C04" {
+		nCancel := 4
+		if cf.tier == "thorough" {
+			nCancel = 30
+		}
+		for r := 0; r < nCancel; r++ {
+			epoch += 4
+			k := fx.Accounts[r%5]
+			mk := func(s, t uint64, root byte) *Op {
+				return &Op{Kind: KAttest, Client: "client1", IP: "10.0.0.1", Addrs: []Addr{{Name: k.Path()}},
+					Atts: []AttData{{Dom: mkDomain(domAttester, 0), BBR: fill32(root), Src: &Checkpoint{s, fill32(0)}, Tgt: &Checkpoint{t, fill32(root)}}}}
+			}
+			if obs, err := inst.ExecCtx(ctx, mk(epoch-1, epoch, 1)); err != nil || obs[0].State != core.ResultSucceeded {
+				continue
+			}
+			cctx, cancel := context.WithCancel(ctx)
+			a := &concReq{Op: mk(epoch, epoch+1, 0xa1), Ctx: cctx}
+			b := &concReq{Op: mk(epoch+1, epoch+2, 0xb2)}
+			rl.delay = func(t int, kind string, key int) {
+				if kind == "after-fetch" && t == 0 {
+					time.Sleep(300 * time.Millisecond)
+				}
+				if kind == "before-prelock" && t == 1 {
+					time.Sleep(60 * time.Millisecond) // let the first request take the key first
+				}
+			}
+			go func() { time.Sleep(120 * time.Millisecond); cancel() }()
+			_, stuck := concRound(ctx, fx, inst, rl, []*concReq{a, b}, 20*time.Second)
+			rl.delay = nil
+			cancel()
+			time.Sleep(350 * time.Millisecond) // an abandoned evaluation, if any, has finished by now
+			if stuck {
+				monFail = append(monFail, fmt.Sprintf("cancel round %d: the requests did not complete", r))
+				continue
+			}
+			cObs, err := inst.ExecCtx(ctx, mk(epoch+1, epoch+2, 0xc3))
+			post, _ := inst.ReadStore(ctx)
+			stats["cancel.rounds"]++
+			bOK := b.Done && len(b.Obs) == 1 && b.Obs[0].State == core.ResultSucceeded
+			if bOK && err == nil && cObs[0].State == core.ResultSucceeded {
+				monFail = append(monFail, fmt.Sprintf("cancel round %d: after a request for key#%d was cancelled between its read and its write, two different attestations %d->%d were both approved (record now %+v)", r, k.ID, epoch+1, epoch+2, post.Att[k.ID]))
+			}
+			if bOK && post.Att[k.ID].Tgt < int64(epoch+2) {
+				monFail = append(monFail, fmt.Sprintf("cancel round %d: the record of key#%d went back to %+v after %d->%d had been approved (lost update)", r, k.ID, post.Att[k.ID], epoch+1, epoch+2))
+			}
 		}
 	}
 	// sustained random load (C15): many rounds without delays, only completion is checked
